@@ -170,9 +170,9 @@ def main():
         "setup_cmd": "./vcheck --setup",
         "hooks": {
             "guard": "BOOST_MQTT5_VERIF",
-            "enable": "none needed so far: every harness includes the unmodified headers; seams are macro re-definitions inside the harness translation units (DESIGN.md §2.3)",
+            "enable": "harness/h_client.cpp defines BOOST_MQTT5_VERIF and BOOST_MQTT5_VERIF_ON_PACKET(control_byte, first, last) before including the library: impl/assemble_op.hpp then reports every inbound packet at the moment it is dispatched (the only hook; every other seam is a macro re-definition inside a harness translation unit, DESIGN.md §2.3). With the guard undefined the hook expands to nothing.",
             "baseline_off_cmd": "/verif/tools/baseline.sh",
-            "source_commits": [],
+            "source_commits": ["663d83c"],
             "add_only": True,
         },
         "engines": [
